@@ -64,10 +64,16 @@ func TestMain(m *testing.M) {
 			"the gated listener's socket is wrapped in an address translator (as a NAT in front of the dialer) that presents each attempt's datagrams with a generated source IP of the pool (IPv4 as 4 or 16 bytes), so the remote address differs from the listener's own; "+
 			"an attempt is decided by an event, never by elapsed time: the gated swarm's Connected notification, or a refusal the real gater returned at the listener's call site (recorded by a wrapper); blocked = never admitted (address/subnet: refused at InterceptAccept), "+
 			"free = admitted with the translated source as remote address and no refusal. "+
+			"Read faults at reopen (action 'reopen-read-fault', and once at the end of every history with a datastore): a gater is reopened on the datastore through a view whose reads follow a generated plan - "+
+			"the n-th Query call of the reopen returns an error (n in 0..5, addressed by ordinal, nothing about the key layout assumed), or the n-th Query call delivers k entries, then an error result, then ends, "+
+			"or the record under one stored key is read back damaged (truncated, empty, or every byte changed); Query results are delivered in key order. NewBasicConnectionGater must then either return an error "+
+			"(no gater, nothing admitted through it) or return a gater that lists and refuses (InterceptPeerDial/InterceptSecured inbound, InterceptAddrDial/InterceptAccept for every probe form) every block whose call returned success; "+
+			"for a damaged record the one rule written by the call that wrote that record is not demanded; an error from the constructor when no fault was delivered is a failure. One-sided: what else such a gater refuses is not judged. "+
 			"Per history every crash point is enumerated (one snapshot per applied write); histories, faults and remotes are sampled. "+
 			"Non-trivial = a probed/dialled/accepted remote matches a rule in force through a non-canonical form (mapped spelling, 16-byte rule vs 4-byte remote, subnet rule hit at an edge address, "+
 			"resolved DNS name) or the case contains a reopen on a non-empty rule set; distinct = distinct (pool, op history, attempts).",
-		"the datastore double applies every write atomically and either applies it or fails it (no 'applied but reported failed' mode); read failures are not injected",
+		"the datastore double applies every write atomically and either applies it or fails it (no 'applied but reported failed' mode); read failures are injected only into reopens of TestRuleHistories (one fault per reopen: a Query error, an error result, or one damaged value), not into the snapshot reopens after each write and not into the composition tests",
+		"a record read back damaged is the datastore not returning what was written: the rule that record held may be missing after the reopen (or the reopen may fail); every other rule must still be enforced",
 		"a subnet is identified by the set of addresses it covers (IP masked by Mask), not by the spelling of the IPNet value: the last successful Block/Unblock of that set decides "+
 			"(known finding "+kfHostBits+": while listed as known, an Unblock spelled differently from a Block still on record gives no verdict for that subnet)",
 		"masks that are not CIDR prefixes are generated rarely (net.IPNet allows them, Contains honours them; known finding "+kfMask+" removes them from the generator while listed as known)",
